@@ -635,11 +635,9 @@ def _conn_http():
 _LOCK_TYPES = (type(threading.Lock()), type(threading.RLock()))
 _CUR = [None]            # the scheduler of the `par` line being executed
 DRAIN_RUN = 1000000      # = Interleave.drainRun
-STEP_TIMEOUT = 20.0
-
-
-class _Abort(BaseException):
-    pass
+STEP_TIMEOUT = 10.0
+SEQ_LOCK_TIMEOUT = 2.0
+_DEAD = [0]              # deadlocks / hangs seen in this process; after three the real code is not driven any more
 
 
 class _CoopLock:
@@ -652,9 +650,18 @@ class _CoopLock:
     def acquire(self, blocking=True, timeout=-1):
         sch = _CUR[0]
         k = getattr(sch.local, "k", None) if sch is not None else None
-        if k is None or not blocking or timeout != -1:
+        if not blocking or timeout != -1:
             return self._real.acquire(blocking, timeout)
+        if k is None:                      # an ordinary sequential call: must not wait (nobody else runs)
+            if self._real.acquire(True, SEQ_LOCK_TIMEOUT):
+                return True
+            _DEAD[0] += 1
+            raise RuntimeError("deadlock: the connection's lock is never released")
         while not self._real.acquire(False):
+            if sch.abort:                  # the run is over: do not wait for ever
+                if self._real.acquire(True, 1.0):
+                    return True
+                raise RuntimeError("forced schedule aborted while waiting for a lock")
             sch.point(k, blocked=True)
         return True
 
@@ -754,8 +761,12 @@ class Forced:
         self.codes = set(codes)
         self.n = len(bodies)
         self.bodies = bodies
-        self.go = [threading.Semaphore(0) for _ in bodies]
-        self.back = threading.Semaphore(0)
+        # binary semaphores made of raw locks (strict alternation scheduler <-> one worker)
+        self.go = [threading.Lock() for _ in bodies]
+        for g in self.go:
+            g.acquire()
+        self.back = threading.Lock()
+        self.back.acquire()
         self.grant = [0] * self.n
         self.done = [False] * self.n
         self.exc = [None] * self.n
@@ -779,8 +790,8 @@ class Forced:
         return self._local
 
     def point(self, k, blocked=False):
-        if self.abort:
-            raise _Abort()
+        if self.abort:                 # the run is over (deadlock / hang): let everybody run out freely
+            return
         if blocked:
             self.grant[k] = 0          # the rest of the run is wasted as well
         if self.grant[k] > 0:
@@ -790,7 +801,7 @@ class Forced:
         self.back.release()
         self.go[k].acquire()
         if self.abort:
-            raise _Abort()
+            return
         self.grant[k] -= 1
         self.steps[k] += 1
 
@@ -801,14 +812,15 @@ class Forced:
             if not self.abort:
                 sys.settrace(self._global)
                 self.bodies[k]()
-        except _Abort:
-            pass
         except BaseException as e:     # noqa: the exception is an observation
             self.exc[k] = e
         finally:
             sys.settrace(None)
             self.done[k] = True
-            self.back.release()
+            try:
+                self.back.release()
+            except RuntimeError:       # several threads unwinding after an abort
+                pass
 
     # ---- scheduler side
     def _give(self, t, n):
@@ -843,9 +855,12 @@ class Forced:
             for t in range(self.n):
                 if not self.done[t]:
                     self.grant[t] = 1
-                    self.go[t].release()
+                    try:
+                        self.go[t].release()
+                    except RuntimeError:
+                        pass
             for th in self.threads:
-                th.join(timeout=2.0)
+                th.join(timeout=5.0)
             _CUR[0] = None
         return status
 
@@ -922,6 +937,7 @@ class _Real:
         self.ch = _conn_http()
         self.conns = []        # (connection object, family index)
         self.fams = []         # dict(impl=, cp_line=, ids=)
+        self.extra_impls = []
         self.counter_attr, self.conn_attr, _ = _names()
 
     def canon(self, fam, v):
@@ -957,6 +973,9 @@ class _Real:
             d = ch.HttpConn(parent, adapters=[ch.RequestAdapterAddPathPrefix("/api")])
         else:
             d = ch.HttpConn(parent)
+        if all(d.conn_impl is not f["impl"] for f in self.fams) and d.conn_impl not in self.extra_impls:
+            wrap_locks(d.conn_impl)        # not shared with the parent (the property is then broken)
+            self.extra_impls.append(d.conn_impl)
         self.conns.append((d, fam))
         return len(self.conns) - 1
 
@@ -983,6 +1002,8 @@ def _run(case):
     """-> (replies, details); details feed the oracle"""
     lines = case["lines"]
     replies, details = [], []
+    if _DEAD[0] >= 3:
+        return ["err deadlock-seen-before"] * len(lines), []
     w = _Real()
     gen_code = None
     try:
@@ -1082,6 +1103,7 @@ def _run_par(w, cap, tok, d, gen_code):
         d["error"] = type(errs[0]).__name__
         return _err(errs[0])
     if status != "ok":
+        _DEAD[0] += 1
         return "err OUT-OF-FUEL" if status == "deadlock" else "err hang"
     return "ok " + "|".join("." if not t else "+".join(_show(v) for v in t) for t in out)
 
@@ -1327,6 +1349,9 @@ def corpus():
                           "new %s 1" % enc_str("ffff"), "req 3 _", "req 2 _"], "meta": {"kind": "corpus-derived"}})
     out.append({"lines": ["new %s 1" % x, "req 0 _", "burst 0 10050", "req 0 _", "burst 0 3"],
                 "meta": {"kind": "corpus-burst-10000"}})
+    # self-test of the search machinery: on the extracted program the model finds no schedule that repeats a number
+    out.append({"lines": ["new %s 1" % x, "enum 2 1 1000000", "enum 3 1 3000000", "enum 2 2 3000000"],
+                "meta": {"kind": "corpus-model-enumeration"}})
     out.append({"lines": ["new %s 0" % x, "req 0 _", "req 0 %s" % enc_hdrs([("X-Request-ID", "Zq")]),
                           "par 0 0@_|0@_ 0*5,1*9"], "meta": {"kind": "corpus-ids-disabled"}})
     return out
@@ -1346,7 +1371,7 @@ def gen_cases(rng, tier):
                 lines.append("burst %d %d" % (rng.choice(allc), rng.randrange(1, 40)))
         yield {"lines": lines, "meta": {"kind": "sequential"}}
     # forced interleavings
-    for n in range(700 if quick else 15000):
+    for n in range(800 if quick else 20000):
         lines = []
         fams = _prelude(rng, lines)
         f = rng.choice(list(fams))
@@ -1360,9 +1385,8 @@ def gen_cases(rng, tier):
             lines.append(_req_line(rng, conns, 1.0))
         yield {"lines": lines, "meta": {"kind": "par-" + kind}}
     # exhaustive small scope: two threads, one call each, each stopped at every position
-    step = 1
-    for a in range(0, L + 1, step):
-        for b in range(0, L + 1, step):
+    for a in range(0, L + 1):
+        for b in range(0, L + 1):
             yield {"lines": ["new %s 1" % enc_str("ab12"), "wrap 0 bauth",
                              "par 0 0@_|1@_ 0*%d,1*%d" % (a, b), "req 0 _"],
                    "meta": {"kind": "par-grid2"}}
@@ -1394,7 +1418,7 @@ def search_cases(rng, tier):
     L, A, R = _prog_info()
     # 1. schedules on which the model (extracted program) hands out a number twice, replayed on the real code
     for k, n in ((2, 1), (2, 2), (3, 1)):
-        out = _ask_driver(["reset", "enum %d %d 300000" % (k, n)])
+        out = _ask_driver(["reset", "enum %d %d 3000000" % (k, n)])
         if len(out) >= 2 and out[1].startswith("found "):
             spec = "|".join("+".join(["0@_"] * n) for _ in range(k))
             yield {"lines": ["new %s 1" % x, "par 0 %s %s" % (spec, out[1].split()[1]), "req 0 _"],
